@@ -134,3 +134,232 @@ Proof.
   split; [reflexivity|]. apply poll_loop_log in E. destruct E as [ps' [-> Hl]]. cbn [app] in *.
   rewrite Hl, He, skipn_length_app, <- app_assoc. reflexivity.
 Qed.
+
+(* ================================================================ B. the batches of a scan node *)
+
+Definition annot (l : store) : list aslot := map (fun kv : kvp => (CNext (Some (fst kv)), Some kv)) l.
+
+Lemma annot_length : forall l, List.length (annot l) = List.length l.
+Proof. intros. apply map_length. Qed.
+
+Lemma firstn_annot : forall n l, firstn n (annot l) = annot (firstn n l).
+Proof. intros. unfold annot. apply firstn_map. Qed.
+
+Lemma skipn_annot : forall n l, skipn n (annot l) = annot (skipn n l).
+Proof. intros. unfold annot. apply skipn_map. Qed.
+
+Lemma map_fst_annot : forall l, map fst (annot l) = map (fun kv : kvp => CNext (Some (fst kv))) l.
+Proof. intros. unfold annot. rewrite map_map. reflexivity. Qed.
+
+Lemma somes_annot : forall l, somes (map snd (annot l)) = l.
+Proof. intros. unfold annot. rewrite map_map. cbn [snd]. apply ScanSlotsProofs.somes_map_some. Qed.
+
+Lemma ltb_SS : forall a b, (S a <? S b) = (a <? b).
+Proof. reflexivity. Qed.
+
+(* the cursor after the Next that discovered the end, [sl] = the slots that were left *)
+Definition after_end (snap : store) (n : nat) (rest : store) : cursor :=
+  match skipn n rest with [] => Cur snap [] | _ :: r => Cur snap r end.
+
+Lemma take_until_skipn : forall stop n rest, n <= List.length (take_until stop rest) ->
+  take_until stop (skipn n rest) = skipn n (take_until stop rest) /\
+  cursor_term stop (skipn n rest) = cursor_term stop rest /\
+  n <= List.length rest.
+Proof.
+  intros stop. induction n as [|n IH]; intros rest H; [cbn; auto with arith|].
+  destruct rest as [|kv rest]; [cbn in H; lia|]. cbn [take_until cursor_term skipn] in *.
+  destruct (stop kv); [cbn in H; lia|]. cbn [List.length skipn] in *.
+  destruct (IH rest) as [H1 [H2 H3]]; [lia|]. repeat split; auto; lia.
+Qed.
+
+Lemma take_until_never : forall (stop : kvp -> bool) rest, (forall kv, stop kv = false) -> take_until stop rest = rest.
+Proof. intros stop rest H. induction rest as [|kv rest IH]; cbn [take_until]; [reflexivity|]. rewrite H, IH. reflexivity. Qed.
+
+Lemma cursor_term_never : forall (stop : kvp -> bool) rest, (forall kv, stop kv = false) -> cursor_term stop rest = CNext None.
+Proof. intros stop rest H. induction rest as [|kv rest IH]; cbn [cursor_term]; [reflexivity|]. rewrite H. exact IH. Qed.
+
+Lemma take_until_length : forall stop rest, List.length (take_until stop rest) <= List.length rest.
+Proof. intros stop. induction rest as [|kv rest IH]; cbn [take_until]; [lia|]. destruct (stop kv); cbn [List.length]; lia. Qed.
+
+(* one pass of the read loop of a cursor scan, EXACTLY *)
+Lemma cursor_chunk_exact : forall sc n snap rest acc d,
+  rspec (cursor_read_chunk sc n snap rest acc) d (fun x l =>
+    x = (acc ++ firstn n (take_until (scan_stop sc) rest),
+         (if List.length (take_until (scan_stop sc) rest) <? n
+          then after_end snap (List.length (take_until (scan_stop sc) rest)) rest
+          else Cur snap (skipn n rest)),
+         List.length (take_until (scan_stop sc) rest) <? n) /\
+    l = map (fun kv : kvp => CNext (Some (fst kv))) (firstn n (take_until (scan_stop sc) rest))
+        ++ (if List.length (take_until (scan_stop sc) rest) <? n then [cursor_term (scan_stop sc) rest] else [])).
+Proof.
+  intros sc. induction n as [|n IH]; intros snap rest acc d; cbn [cursor_read_chunk].
+  - cbn [rspec firstn skipn map app]. rewrite app_nil_r. split; reflexivity.
+  - destruct rest as [|kv rest].
+    + cbn [op_next bind rspec ranswer rentry crest csnap snd fst take_until firstn List.length map app].
+      rewrite app_nil_r. split; reflexivity.
+    + cbn [op_next bind rspec ranswer rentry crest csnap snd fst take_until cursor_term].
+      destruct (scan_stop sc kv) eqn:Es.
+      * cbn [rspec firstn List.length map app]. rewrite app_nil_r. split; reflexivity.
+      * eapply rspec_mono; [|apply IH]. cbn beta. intros x l [-> ->].
+        cbn [List.length firstn skipn map app]. rewrite ltb_SS, <- app_assoc. cbn [app].
+        split; [|reflexivity]. unfold after_end. cbn [skipn]. reflexivity.
+Qed.
+
+Lemma somes_length_le : forall (P : Type) (l : list (option P)), List.length (somes l) <= List.length l.
+Proof. induction l as [|[x|] l IH]; cbn [somes List.length]; lia. Qed.
+Arguments somes_length_le {P} l.
+
+Section Exact.
+Variable flt : kvp -> bool.
+Variable B : nat.
+Hypothesis HB : 1 <= B.
+
+(* rows produced + slots left never exceed slots given + rows so far *)
+Lemma batch_pass_measure : forall f term rest ret rows log rest' e,
+  batch_pass flt B f term rest ret = (rows, log, rest', e) ->
+  List.length rest' + List.length rows <= List.length rest + List.length ret.
+Proof.
+  induction f as [|f IH]; intros term rest ret rows log rest' e H; cbn [batch_pass] in H.
+  - injection H as <- <- <- <-. lia.
+  - pose proof (firstn_skipn B rest) as FS. apply (f_equal (@List.length aslot)) in FS. rewrite app_length in FS.
+    pose proof (somes_length_le (map snd (firstn B rest))) as SL. rewrite map_length in SL.
+    pose proof (filter_length_le flt (somes (map snd (firstn B rest)))) as FL.
+    match type of H with (if ?c then _ else _) = _ => destruct c end.
+    + injection H as <- <- <- <-. rewrite app_length. unfold aslot in *. lia.
+    + destruct (batch_pass flt B f term (skipn B rest) (ret ++ filter flt (somes (map snd (firstn B rest)))))
+        as [[[rows1 log1] rest1] e1] eqn:E.
+      injection H as <- <- <- <-. apply IH in E. rewrite app_length in E. unfold aslot in *. lia.
+Qed.
+
+(* enough fuel is enough: a pass that does not finish has consumed B >= 1 slots *)
+Lemma batch_pass_fuel : forall f f' term rest ret,
+  List.length rest < f -> List.length rest < f' ->
+  batch_pass flt B f term rest ret = batch_pass flt B f' term rest ret.
+Proof.
+  induction f as [|f IH]; intros f' term rest ret H H'; [lia|]. destruct f' as [|f']; [lia|].
+  cbn [batch_pass].
+  match goal with |- (if ?c then _ else _) = _ => destruct c eqn:Efin end; [reflexivity|].
+  assert (Hlt : (List.length rest <? B) = false).
+  { destruct (somes (map snd (firstn B rest))); [exact Efin|]. apply orb_false_iff in Efin. exact (proj1 Efin). }
+  apply Nat.ltb_ge in Hlt.
+  assert (Hs : List.length (skipn B rest) < List.length rest) by (rewrite skipn_length; lia).
+  rewrite (IH f'); [reflexivity|lia|lia].
+Qed.
+
+(* the end flag: seen iff fewer than B slots were left at the last pass; then nothing is left *)
+Lemma batch_pass_end : forall f term rest ret rows log rest' e,
+  batch_pass flt B f term rest ret = (rows, log, rest', e) -> e = true -> rest' = [].
+Proof.
+  induction f as [|f IH]; intros term rest ret rows log rest' e H He; cbn [batch_pass] in H.
+  - injection H as <- <- <- <-. discriminate.
+  - match type of H with (if ?c then _ else _) = _ => destruct c end.
+    + injection H as <- <- <- <-. apply Nat.ltb_lt in He. apply skipn_all2. lia.
+    + destruct (batch_pass flt B f term (skipn B rest) (ret ++ filter flt (somes (map snd (firstn B rest)))))
+        as [[[rows1 log1] rest1] e1] eqn:E.
+      injection H as <- <- <- <-. eapply IH; eassumption.
+Qed.
+
+(* ---------------------------------------------------------------- cursor scans *)
+
+(* one Batch() call of a cursor scan, EXACTLY: the rows, the calls, the end flag are those of
+   [batch_pass] over the annotated slots the cursor still has; the cursor ends up where the
+   slots left are *)
+Lemma cursor_loop_exact : forall f sc c ret d,
+  rspec (cursor_batch_loop flt B f sc c ret) d (fun x l =>
+    match batch_pass flt B f [cursor_term (scan_stop sc) (crest c)]
+                     (annot (take_until (scan_stop sc) (crest c))) ret with
+    | (rows, log, rest', e) =>
+        fst (fst x) = rows /\ snd x = e /\ l = log /\
+        csnap (snd (fst x)) = csnap c /\
+        List.length (crest (snd (fst x))) <= List.length (crest c) /\
+        (e = false -> rest' = annot (take_until (scan_stop sc) (crest (snd (fst x)))) /\
+                      cursor_term (scan_stop sc) (crest (snd (fst x))) = cursor_term (scan_stop sc) (crest c)) /\
+        (e = true -> (forall kv, scan_stop sc kv = false) -> crest (snd (fst x)) = [])
+    end).
+Proof.
+  induction f as [|f IH]; intros sc c ret d; cbn [cursor_batch_loop]; [reflexivity|].
+  apply rspec_bind. eapply rspec_mono; [|apply cursor_chunk_exact]. cbn beta.
+  intros x l [-> ->]. cbn [app].
+  set (stop := scan_stop sc). set (sl := take_until stop (crest c)).
+  cbn [batch_pass]. rewrite annot_length, firstn_annot, map_fst_annot, somes_annot, skipn_annot.
+  fold sl. set (ret' := ret ++ filter flt (firstn B sl)).
+  destruct (List.length sl <? B) eqn:Ee.
+  - (* the end is seen in this pass *)
+    assert (Efin : match firstn B sl with [] => true | _ :: _ => true || (B <=? List.length ret') end = true)
+      by (destruct (firstn B sl); reflexivity).
+    rewrite Efin. cbn [rspec fst snd]. rewrite app_nil_r.
+    split; [reflexivity|]. split; [reflexivity|]. split; [reflexivity|].
+    split; [unfold after_end; destruct (skipn (List.length sl) (crest c)); reflexivity|].
+    split.
+    { unfold after_end. pose proof (skipn_length (List.length sl) (crest c)) as SL.
+      destruct (skipn (List.length sl) (crest c)); cbn [crest List.length] in *; lia. }
+    split; [discriminate|].
+    intros _ Hn. unfold after_end, sl. rewrite (take_until_never stop (crest c) Hn), skipn_all. reflexivity.
+  - pose proof Ee as Ege. apply Nat.ltb_ge in Ege.
+    destruct (take_until_skipn stop B (crest c) Ege) as [H1 [H2 H3]]. fold sl in H1.
+    destruct (match firstn B sl with [] => false | _ :: _ => false || (B <=? List.length ret') end) eqn:Efin.
+    + cbn [rspec fst snd crest csnap]. rewrite app_nil_r.
+      split; [reflexivity|]. split; [reflexivity|]. split; [reflexivity|]. split; [reflexivity|].
+      split; [rewrite skipn_length; lia|]. split; [|discriminate].
+      intros _. rewrite H1. auto.
+    + eapply rspec_mono; [|apply IH]. cbn beta. intros [[rows c''] e2] l2. cbn [crest csnap fst snd].
+      fold stop. rewrite H1, H2. fold ret'.
+      destruct (batch_pass flt B f [cursor_term stop (crest c)] (annot (skipn B sl)) ret') as [[[rows1 log1] rest1] e1].
+      intros (K1 & K2 & K3 & K4 & K5 & K6 & K7).
+      split; [exact K1|]. split; [exact K2|]. split; [rewrite K3, app_nil_r; reflexivity|].
+      split; [exact K4|]. split; [rewrite skipn_length in K5; lia|].
+      split; [exact K6|exact K7].
+Qed.
+
+(* ---------------------------------------------------------------- multi-get *)
+
+Lemma ascan_mget_map : forall keys d,
+  ascan_slots (SMget keys) d
+  = map (fun k => (CGet k, match sget k d with Some v => Some (k, v) | None => None end)) keys.
+Proof. reflexivity. Qed.
+
+Lemma skipn_min : forall (A : Type) n (l : list A), skipn (Nat.min n (List.length l)) l = skipn n l.
+Proof.
+  intros A. induction n as [|n IH]; intros l; [reflexivity|]. destruct l as [|x l]; [reflexivity|].
+  cbn [List.length Nat.min skipn]. apply IH.
+Qed.
+
+Lemma mget_loop_exact : forall f keys idx ret d, List.length ret < B ->
+  rspec (mget_batch_loop flt B f keys idx ret) d (fun x l =>
+    match batch_pass flt B f [] (ascan_slots (SMget keys) d) ret with
+    | (rows, log, rest', e) =>
+        fst x = rows /\ l = log /\
+        exists m, m <= List.length keys /\ snd x = idx + m /\ rest' = ascan_slots (SMget (skipn m keys)) d
+    end).
+Proof.
+  induction f as [|f IH]; intros keys idx ret d Hret; cbn [mget_batch_loop]; [reflexivity|].
+  apply rspec_bind. eapply rspec_mono; [|apply ScanSlotsProofs.mget_chunk_consumes_slots_lemma]. cbn beta.
+  intros x l [-> ->]. cbn [app].
+  cbn [batch_pass]. rewrite !ascan_mget_map, map_length, firstn_map, skipn_map, !map_map. cbn [fst snd].
+  change (map (fun k => match sget k d with Some v => Some (k, v) | None => None end) (firstn B keys))
+    with (scan_slots (SMget (firstn B keys)) d).
+  assert (Efn : firstn B (scan_slots (SMget keys) d) = scan_slots (SMget (firstn B keys)) d).
+  { cbn [scan_slots]. apply firstn_map. }
+  rewrite Efn. unfold EvalVec.kvpair, kvp in *.
+  repeat match goal with |- context [?a ++ (if ?b then [] else [])] =>
+    replace (a ++ (if b then [] else [])) with a by (destruct b; rewrite app_nil_r; reflexivity) end.
+  match goal with |- context [match ?ch with [] => ?e | _ :: _ => ?e2 end] =>
+    replace (match ch with [] => e | _ :: _ => e2 end) with e2
+      by (destruct ch; [cbn [filter]; rewrite app_nil_r;
+                        replace (B <=? List.length ret) with false by (symmetry; apply Nat.leb_gt; exact Hret);
+                        rewrite orb_false_r; reflexivity|reflexivity]) end.
+  match goal with |- rspec (if ?c then _ else _) _ _ => destruct c eqn:Ef end.
+  - cbn [rspec fst snd]. rewrite app_nil_r. split; [reflexivity|]. split; [reflexivity|].
+    exists (Nat.min B (List.length keys)). split; [lia|]. split; [reflexivity|].
+    rewrite skipn_min. reflexivity.
+  - apply orb_false_iff in Ef. destruct Ef as [Ee El]. apply Nat.leb_gt in El. apply Nat.ltb_ge in Ee.
+    eapply rspec_mono; [|apply IH; exact El]. cbn beta. intros [rows idx'] l2. cbn [fst snd].
+    rewrite ascan_mget_map. unfold EvalVec.kvpair, kvp in *.
+    match goal with |- (let (_, _) := ?bp in _) -> _ => destruct bp as [[[rows1 log1] rest1] e1] end.
+    intros (K1 & K2 & m & M1 & M2 & M3).
+    split; [exact K1|]. split; [rewrite K2; reflexivity|].
+    rewrite skipn_length in M1. exists (B + m). split; [lia|]. split; [rewrite M2; lia|].
+    rewrite M3, skipn_add. reflexivity.
+Qed.
+
+End Exact.
